@@ -307,3 +307,64 @@ def run(ctx):
     correspondence(ctx, drv)
     one_step_law(ctx)
     float_stream(ctx)
+    status_names(ctx)
+
+
+def status_names(ctx):
+    """statuses are arbitrary user objects: the same model written with other status NAMES — integers 0/1/2, booleans, the
+    empty string, tuples; in particular names that are falsy — must give the same trajectory (same seeds, same draws).  The
+    reference run uses 'S','I','R'."""
+    import random
+    import numpy as np, networkx as nx, EoN
+    namings = [{"S": 0, "I": 1, "R": 2}, {"S": 1, "I": 2, "R": 0}, {"S": False, "I": True, "R": None}, {"S": "", "I": "i", "R": "r"},
+               {"S": (0,), "I": (), "R": (1,)}, {"S": 2, "I": 0, "R": 1}]
+    for k in range(ctx.scale(24, 120)):
+        r = ctx.rng
+        G = nx.gnp_random_graph(r.randint(5, 12), 0.5, seed=r.randrange(10 ** 6))
+        sis = k % 2 == 1
+        nm = namings[k % len(namings)]
+        if nm["R"] is None and not sis:
+            nm = dict(nm, R=2.5)
+        tau, gamma, kk = r.choice([0.5, 1.0, 2.0]), r.choice([0.5, 1.0]), r.choice([1, 2])
+        seed = r.randrange(10 ** 6)
+        infected = r.sample(list(G), r.randint(1, 3))
+        rep = dict(entry="Gillespie_complex_contagion", stream="status-names", naming={k_: repr(v) for k_, v in nm.items()}, sis=sis, n=G.order(),
+                   edges=[list(e) for e in G.edges()], tau=tau, gamma=gamma, k=kk, infected=infected, seed=seed)
+
+        def run_with(names):
+            S_, I_, R_ = names["S"], names["I"], names["R"]
+
+            def rate(G_, node, status, parameters):
+                s = status[node]
+                if s == I_ and type(s) is type(I_):
+                    return gamma
+                if s == S_ and type(s) is type(S_):
+                    m = sum(1 for v in G_.neighbors(node) if status[v] == I_ and type(status[v]) is type(I_))
+                    return tau if m >= kk else 0
+                return 0
+
+            def choice(G_, node, status, parameters):
+                s = status[node]
+                if s == S_ and type(s) is type(S_):
+                    return I_
+                return S_ if sis else R_
+
+            def infl(G_, node, status, parameters):
+                return list(G_.neighbors(node))
+            IC = {u: (I_ if u in infected else S_) for u in G}
+            rs_ = [S_, I_] if sis else [S_, I_, R_]
+            random.seed(seed); np.random.seed(seed)
+            out = EoN.Gillespie_complex_contagion(G, rate, choice, infl, IC, rs_, tmax=6)
+            return [[float(x) for x in col] for col in out]
+        try:
+            ref = run_with({"S": "S", "I": "I", "R": "R"})
+            alt = run_with(nm)
+        except Exception as e:
+            ctx.case(rep, nontrivial=False)
+            ctx.violation("Gillespie_complex_contagion raised %s with statuses named %s" % (type(e).__name__, rep["naming"]), dict(rep, error=repr(e)[:200]))
+            continue
+        ctx.case(rep, nontrivial=len(ref[0]) > 1)
+        ctx.count("status-names:" + ("sis" if sis else "sir"))
+        if ref != alt:
+            ctx.violation("Gillespie_complex_contagion: the trajectory changes when the statuses are named %s instead of 'S','I','R' "
+                          "(same seeds; %d vs %d rows)" % (rep["naming"], len(alt[0]), len(ref[0])), dict(rep, reference=[c[:12] for c in ref], renamed=[c[:12] for c in alt]))
